@@ -648,6 +648,7 @@ func c12hpInitiator(t *testing.T) {
 	classes := map[string]bool{}
 	idx := -1
 	problems := 0
+	slow := 0
 	overDirect := 0
 	c12hpInitCases(thorough, func(c c12hpInitCase) bool {
 		idx++
@@ -659,7 +660,12 @@ func c12hpInitiator(t *testing.T) {
 			r.Cap("deadline reached at case #%d", idx)
 			return false
 		}
+		t0 := time.Now()
 		o := c12hpRunInit(t, w, &c)
+		if d := time.Since(t0); d > 2*time.Second && slow < 3 {
+			slow++
+			r.Note("slow execution (%.1fs of real time, infrastructure note): %s", d.Seconds(), c.describe(w))
+		}
 		if o.Problem != "" {
 			problems++
 			if problems <= 3 {
